@@ -176,6 +176,7 @@ type runResult struct {
 	solverSec float64
 	sel       selection
 	bounded   []*boundedResult
+	fnsByKey  map[string]*ssa.Function
 	uncontracted []string // exported functions of the property's anchor files that carry no contract
 }
 
@@ -217,7 +218,7 @@ func run(cfg runConfig) (*runResult, error) {
 		}
 	}
 	fns := allFunctions(lr, extPkgs...)
-	res := &runResult{engine: e}
+	res := &runResult{engine: e, fnsByKey: fns}
 	var keys []string
 	if cfg.prop != "" {
 		props, err := loadProperties(cfg.propsFile)
@@ -613,9 +614,17 @@ func cmdCheck(args []string) int {
 	if cfg.prop != "" {
 		_ = os.RemoveAll(filepath.Join(*replayDir, cfg.prop))
 		var vs []violation
+		replays := 0
 		for _, v := range viols {
 			if v.Kind != "engine" && v.Kind != "cover" && v.Kind != "bounded" {
-				v.Replay = tryReplay(cfg, res, v)
+				if replays < 8 {
+					v.Replay = tryReplay(cfg, res, v)
+					if v.Replay.Attempted {
+						replays++
+					}
+				} else {
+					v.Replay = &replayResult{Log: []string{"replay budget of this run (8 executions) used by earlier violations"}}
+				}
 			}
 			writeViolation(*replayDir, cfg.prop, v)
 			vs = append(vs, *v)
